@@ -1307,6 +1307,60 @@ def run(routes, reqs):
 ''', [("run", [(["a", "b"], [("a", "xy"), ("b", None), ("a", 5), ("b", "zzz")]), ([], [])])])
 
 
+# ---- a small record object that does not leave the function; an alternative constructor
+case('''
+LOG = []
+
+class Loop:
+    def __init__(self, name):
+        self.name = name
+    def soon(self, f, *a):
+        LOG.append((self.name, f.__name__, a))
+        f(*a)
+
+class Fut:
+    def __init__(self):
+        self.v = None
+    def set_result(self, x):
+        self.v = ("ok", x)
+    def set_exception(self, x):
+        self.v = ("exc", x)
+
+class _Reply:
+    """answer awaited on one loop, produced on another"""
+    def __init__(self, loop, future):
+        self.loop = loop
+        self.future = future
+
+    @classmethod
+    def awaited_here(cls):
+        future = Fut()
+        return cls(Loop("here"), future)
+
+    def resolve(self, response):
+        self.loop.soon(self.future.set_result, response)
+
+    def reject(self, error):
+        self.loop.soon(self.future.set_exception, error)
+
+def execute(loop, fut, cmd):
+    reply = _Reply(loop, fut)
+    try:
+        if cmd == "boom":
+            raise KeyError(cmd)
+        reply.resolve(cmd.upper())
+    except KeyError as e:
+        reply.reject("not found " + str(e))
+
+def run(cmd):
+    LOG.clear()
+    reply = _Reply.awaited_here()
+    assert reply.loop is not None
+    execute(reply.loop, reply.future, cmd)
+    return reply.future.v, list(LOG)
+''', [("run", [("abc",), ("boom",)])])
+
+
 def outcome(ns, fn, args):
     import copy
     try:
